@@ -55,7 +55,7 @@ func cmdReplay(args []string) int {
 		fmt.Fprintln(os.Stderr, "load failed:", err)
 		return 2
 	}
-	sp := w.SSAPkgs[sx.ModulePath+"/"+in.Package]
+	sp := w.SSAPkgs[pkgPath(in.Package)]
 	if sp == nil {
 		fmt.Fprintln(os.Stderr, "package not loaded:", in.Package)
 		return 2
@@ -78,7 +78,7 @@ func cmdReplay(args []string) int {
 			pc := props[mm[1]]
 			var ipkgs []string
 			for _, rel := range pc.Pkgs {
-				ipkgs = append(ipkgs, sx.ModulePath+"/"+rel)
+				ipkgs = append(ipkgs, pkgPath(rel))
 			}
 			ipkgs = append(ipkgs, pc.SchedPkgs...)
 			iov, err := sx.InstrumentForSched(w, ipkgs, filepath.Join(work, "sched"))
